@@ -1,6 +1,6 @@
 (* C19 — vacuum never discards a version that recorded a real change. *)
 From Continuum Require Import Model.Base Model.VTable Model.Vacuum
-     Proofs.BaseP Proofs.VTableP Proofs.VacuumP.
+     Proofs.BaseP Proofs.VTableP Proofs.VacuumP Gen.VacuumGen Proofs.VacuumGenP.
 
 (* a deleted row is identical to the nearest earlier surviving row of the same entity *)
 Theorem C19_only_redundant_rows_deleted : forall t d,
@@ -37,6 +37,18 @@ Theorem C19_vacuum_is_survivors : forall t r,
   pk_unique t -> (In r (vacuum t) <-> In r t /\ ~ In r (vacuum_deleted t)).
 Proof. exact vacuum_survivor. Qed.
 
+(* the loop of utils.vacuum as it is written NOW (Gen/VacuumGen.v, regenerated from utils.py on every
+   run: one pass over all rows ordered by transaction id, a dictionary from keys to the last surviving
+   row) deletes exactly the rows the theorems above speak about - for the sorted table and for every
+   other order the database may choose among rows of different entities with equal transaction ids *)
+Theorem C19_code_pass_is_model : forall t L d,
+  query_order t L -> (In d (gen_vacuum_deleted L) <-> In d (vacuum_deleted t)).
+Proof. exact gen_vacuum_deleted_is_model. Qed.
+
+Theorem C19_code_pass_sorted : forall t d,
+  pk_unique t -> (In d (gen_vacuum_deleted (sort_tx t)) <-> In d (vacuum_deleted t)).
+Proof. exact gen_vacuum_sorted_is_model. Qed.
+
 (* non-vacuity: A, B, A, A for entity 1 (first version an UPDATE) interleaved with entity 2 *)
 Definition C19_ex : vtable :=
   [ mkv [1] 1 None 1 [Some 5] []; mkv [2] 2 None 0 [Some 5] []; mkv [1] 3 None 1 [Some 6] [];
@@ -47,6 +59,9 @@ Example C19_example :
   nth_error (versions C19_ex [1]) 2 = Some (mkv [1] 4 None 1 [Some 5] []) /\
   same_data (mkv [1] 3 None 1 [Some 6] []) (mkv [1] 4 None 1 [Some 5] []) = false.
 Proof. vm_compute. repeat split; reflexivity. Qed.
+Example C19_code_pass_example :
+  map vid (gen_vacuum_deleted (sort_tx C19_ex)) = [([2], 5); ([1], 6)].
+Proof. vm_compute. reflexivity. Qed.
 (* as of transaction 6 entity 1 is answered by the surviving row of transaction 4 *)
 Example C19_as_of_example :
   map vid (vacuum C19_ex) = [([1], 1); ([2], 2); ([1], 3); ([1], 4)].
@@ -57,5 +72,8 @@ Print Assumptions C19_first_kept.
 Print Assumptions C19_changed_kept.
 Print Assumptions C19_as_of_preserved.
 Print Assumptions C19_vacuum_is_survivors.
+Print Assumptions C19_code_pass_is_model.
+Print Assumptions C19_code_pass_sorted.
 Print Assumptions C19_example.
+Print Assumptions C19_code_pass_example.
 Print Assumptions C19_as_of_example.
